@@ -147,8 +147,11 @@ def run(tier, replay=None):
             os.makedirs(dd)
             nrng = np.random.RandomState(evidence.seed() * 100 + ti)
             a_ = [np.full_like(x, th0[j] if j < len(th0) else 0.0) for j in range(4)]
-            y = p1.tree_values(t0, x=x, a=a_)[0] + sig0 * nrng.standard_normal(len(x))
-            sig = np.full(len(x), sig0)
+            # error bars that differ from point to point, rows in no particular order
+            sig = sig0 * (0.7 + 0.6 * ((np.arange(len(x)) * 7) % 11) / 10.0)
+            y = p1.tree_values(t0, x=x, a=a_)[0] + sig * nrng.standard_normal(len(x))
+            order = nrng.permutation(len(x))
+            x, y, sig = x[order], y[order], sig[order]
             # the same law under the ways a user runs the pipeline: into a directory that holds a completed earlier run on other data,
             # on 12 ranks (two-digit rank numbers in the partial files), with the optimiser in log space
             variant = ("rerun", "ranks12", "log_opt", "plain")[ti % 4]
